@@ -10,6 +10,8 @@ import (
 	"encoding/json"
 	"fmt"
 	"os"
+	"path/filepath"
+	"sort"
 	"strings"
 	"sync"
 	"sync/atomic"
@@ -20,6 +22,7 @@ import (
 	"verif/harness/internal/hx"
 	"verif/harness/internal/mgrsim"
 	"verif/harness/internal/rng"
+	"verif/harness/internal/storeobs"
 	"verif/harness/internal/subs"
 )
 
@@ -70,7 +73,10 @@ type sub struct {
 	bogus bool
 	coqID int // for bogus ids
 	chunk int // chunk size used in the final phase
+	rec   bool // the recorder: follows the node block by block and keeps the ledger it held at every index
 }
+
+const recorderID = -7
 
 var chunkSizes = []int{1, 2, 3, 7, 100, 1000}
 
@@ -87,12 +93,20 @@ type world struct {
 	fail     *failure
 	stats    map[string]int
 	pruned   bool
+	snap     map[int]*chaingen.Ledger // the ledger a subscriber of this node held when it stood on block x
+	ops      []mgrsim.Op
+	f8At     int  // number of ops the expiry-order classification below was made for
+	f8       bool // the C02 judge attributes the node's deviation from the linear replay to the expiry order
 }
 
 func newWorld(t *chaingen.Tree) *world {
 	w := &world{t: t, s: mgrsim.NewSim(t, nil), tw: subs.NewTwin(t), everBest: map[int]bool{0: true}, subs: map[int]*sub{}, stats: map[string]int{}}
 	w.s.CM.OnReorg(func(ci types.ChainIndex) { w.notes = append(w.notes, ci) })
 	w.s.Observe(&w.prev)
+	w.snap = map[int]*chaingen.Ledger{}
+	w.f8At = -1
+	w.subs[recorderID] = &sub{l: chaingen.NewLedger(), rec: true}
+	w.follow()
 	return w
 }
 
@@ -118,7 +132,19 @@ func (w *world) doOp(op mgrsim.Op) {
 	if op.Kind == "prune" {
 		w.pruned = true
 	}
-	w.coq = append(w.coq, "EOp ("+mgrsim.CoqOp(w.t, op)+") ("+mgrsim.CoqObs(o)+")")
+	w.ops = append(w.ops, op)
+	// mgrsim reports a stored state that differs from the linear replay's as kind 1, like a
+	// header-derived one. A full state that differs (same number of accumulator leaves: the
+	// expiry-order situation, classified in differsByExpiryOrder) is a full state for the model.
+	ro := o
+	ro.Known = append([]mgrsim.KnownEntry(nil), o.Known...)
+	for i, k := range ro.Known {
+		if k.State == 1 && w.fullButDifferent(w.t.Nodes[k.ID]) {
+			ro.Known[i].State = 2
+			w.stats["full-states-that-differ-from-the-linear-replay"]++
+		}
+	}
+	w.coq = append(w.coq, "EOp ("+mgrsim.CoqOp(w.t, op)+") ("+mgrsim.CoqObs(ro)+")")
 	if o.Panic {
 		w.report("c04-panic", "%v panicked: %s", op, o.ErrText)
 		return
@@ -140,6 +166,48 @@ func (w *world) doOp(op mgrsim.Op) {
 		w.report("c04-notify-wrong-tip", "%v: OnReorg callback got %v, the tip is %v", op, w.notes[len(w.notes)-1], w.s.CM.Tip())
 	}
 	w.prev = o
+	w.follow()
+}
+
+// fullButDifferent: the node stores a state for n that is not the linear replay's but has the same
+// number of accumulator leaves (a header-derived state has its parent's).
+func (w *world) fullButDifferent(n *chaingen.Node) bool {
+	cs, ok := w.s.Store.State(n.ID)
+	return ok && n.ChainValid() && cs.Elements.NumLeaves == n.FullState.Elements.NumLeaves && string(mgrsim.EncState(cs)) != string(mgrsim.EncState(n.FullState))
+}
+
+// differsByExpiryOrder lets the C02 judge decide, for the history so far, whether the node's
+// deviation from the linear replay is the known expiry-order finding (only expiration lists differ
+// from a linear twin, as permutations explained by a reverted resolution/re-windowing).
+func (w *world) differsByExpiryOrder() bool {
+	if w.f8At == len(w.ops) {
+		return w.f8
+	}
+	w.f8At, w.f8 = len(w.ops), false
+	nd, err := storeobs.NewNode(w.t, chain.NewMemDB(), nil)
+	if err != nil {
+		return false
+	}
+	for _, op := range w.ops {
+		if o := nd.Do(op); o.Panic {
+			return false
+		}
+	}
+	f, _ := storeobs.Judge(nd, storeobs.NewTwins(w.t))
+	w.f8 = f != nil && f.Kind == storeobs.KindF8
+	return w.f8
+}
+
+// follow: the recorder polls block by block up to the tip and keeps the ledger it holds at each index.
+func (w *world) follow() {
+	rec := w.subs[recorderID]
+	for i := 0; rec.idx != w.s.CM.Tip() && w.fail == nil && i < 10000; i++ {
+		before := rec.idx
+		w.poll(recorderID, 1)
+		if rec.idx == before {
+			return // stranded (pruned below it): nothing more to record
+		}
+	}
 }
 
 func (w *world) spawn(ev Ev) {
@@ -167,7 +235,11 @@ func (w *world) spawn(ev Ev) {
 			return // not an index a subscriber can have reached and the store still holds (unpruned)
 		}
 		n := w.t.Nodes[ev.At]
-		w.subs[ev.Sub] = &sub{idx: types.ChainIndex{Height: n.Height, ID: n.ID}, l: w.tw.At(n).Clone()}
+		held := w.snap[ev.At] // what a subscriber of this node held when it reached that index
+		if held == nil {
+			return
+		}
+		w.subs[ev.Sub] = &sub{idx: types.ChainIndex{Height: n.Height, ID: n.ID}, l: held.Clone()}
 		w.stats["subscribers-from-held-index"]++
 		if !contains(w.prev.Best, ev.At) {
 			w.stats["subscribers-from-stale-branch"]++
@@ -278,7 +350,9 @@ func (w *world) poll(id int, max int) {
 	}
 	if err != nil {
 		w.stats["polls-error"]++
-		w.coq = append(w.coq, fmt.Sprintf("EPoll %s %d None", w.coqIdx(before, 0), max))
+		if !sb.rec {
+			w.coq = append(w.coq, fmt.Sprintf("EPoll %s %d None", w.coqIdx(before, 0), max))
+		}
 		if lost >= 0 && !expectErr {
 			w.report("c04-held-index-lost", "UpdatesSince(%v [block %d], %d) failed (%v): block %d on the subscriber's path (reverts %v, applies %v) was applied earlier and never pruned, its body is still stored, but its supplement is gone (a later submission re-stored it)", sb.idx, w.nodeOf(sb.idx), max, err, lost, revs, apps)
 		} else if !expectErr {
@@ -298,7 +372,9 @@ func (w *world) poll(id int, max int) {
 	for _, au := range aus {
 		aids = append(aids, fmt.Sprint(w.nodeOf(au.State.Index)))
 	}
-	w.coq = append(w.coq, fmt.Sprintf("EPoll %s %d (Some ([%s], [%s], %s))", w.coqIdx(before, 0), max, strings.Join(rids, "; "), strings.Join(aids, "; "), w.coqIdx(after, 0)))
+	if !sb.rec {
+		w.coq = append(w.coq, fmt.Sprintf("EPoll %s %d (Some ([%s], [%s], %s))", w.coqIdx(before, 0), max, strings.Join(rids, "; "), strings.Join(aids, "; "), w.coqIdx(after, 0)))
+	}
 	if len(rus) > 0 {
 		w.stats["chunks-with-reverts"]++
 	}
@@ -343,6 +419,12 @@ func (w *world) poll(id int, max int) {
 		return
 	}
 	sb.idx = after
+	if sb.rec {
+		if n, ok := w.t.ByID[after.ID]; ok {
+			w.snap[n.Idx] = sb.l.Clone()
+		}
+		return // the other subscribers' ledgers are the ones compared
+	}
 	// the shadow ledger equals the linear twin's ledger at the index reached (elements, leaf
 	// indices, byte-equal Merkle proofs)
 	if after != (types.ChainIndex{}) {
@@ -364,8 +446,12 @@ func (w *world) poll(id int, max int) {
 		if w.prev.Known[n.Idx].State != 2 {
 			// the node's own state at this block is not the linear replay's (expiring-contract order
 			// after a reverted revision: C02's finding): leaf positions are not comparable
+			if !w.differsByExpiryOrder() {
+				w.report("c04-state-differs-from-linear-replay", "the node's state at block %d differs from the linear replay of the same chain and the C02 judge does not attribute it to the expiration-list order", n.Idx)
+				return
+			}
 			cmp = subs.CompareLoose
-			w.stats["indices-whose-state-differs-from-the-linear-replay"]++
+			w.stats["indices-whose-state-differs-from-the-linear-replay-by-expiry-order"]++
 		}
 		if d := cmp(sb.l, w.tw.At(n)); d != "" {
 			k := "c04-shadow-ledger-differs"
@@ -412,7 +498,7 @@ func (w *world) finish(r *rng.R) {
 	sortInts(ids)
 	for _, id := range ids {
 		sb := w.subs[id]
-		if sb.bogus {
+		if sb.bogus || sb.rec {
 			continue
 		}
 		if sb.chunk == 0 {
@@ -862,6 +948,20 @@ func run(c *hx.Ctx) {
 		// stream it cannot be trusted to terminate, so the generated histories are skipped
 		res.Notes = append(res.Notes, "the directed preflight history failed; generated histories were skipped")
 		return
+	}
+	// corpus: minimised earlier failures and false alarms (/verif/corpus/C04/*.json), run first
+	files, _ := filepath.Glob("/verif/corpus/C04/*.json")
+	sort.Strings(files)
+	for _, f := range files {
+		var cc struct {
+			Replay struct {
+				Case Case `json:"case"`
+			} `json:"replay"`
+		}
+		if b, err := os.ReadFile(f); err == nil && json.Unmarshal(b, &cc) == nil && cc.Replay.Case.safeTree() != nil {
+			doCase(cc.Replay.Case)
+			res.Count("corpus-histories")
+		}
 	}
 	n := c.Scale(280, 4000)
 	for i := 0; i < n; i++ {
